@@ -118,6 +118,49 @@ def v_ids(p):
       # stackoverflow tokenizer: 0 pad, 1 bos, 2 eos, words at 3.., oov buckets start at len(vocab) + 3 (1 bucket)
       hyp = [V >= 0]
       want = dict(pad=0, bos=1, eos=2, oov=V + 3, full_vocab_size=V + 4)
+    # the logits mask of accuracy_in_vocab: -inf exactly at the special labels {pad, bos, eos, oov}, 0 at every word label
+    # (the construction only depends on vocab_size: executed for three concrete vocabulary sizes)
+    pre = []
+    for st in fn.body:
+      if isinstance(st, ast.FunctionDef):
+        break
+      if isinstance(st, (ast.Assign, ast.For, ast.AugAssign)):
+        pre.append(st)
+    bad = []
+    for v_ in (1, 7, 50):
+      ns = {'vocab_size': v_, 'jnp': type('J', (), {'inf': float('inf')})()}
+      try:
+        exec(compile(ast.Module(body=pre, type_ignores=[]), md_rel, 'exec'), ns)   # pure constant / list arithmetic of the prefix
+        lm = ns.get('logits_mask')
+        special = {ns['pad'], ns['bos'], ns['eos'], ns['oov']}
+        okm = isinstance(lm, tuple) and len(lm) == ns['full_vocab_size'] and all(
+            (x == float('-inf')) == (i in special) and (i in special or x == 0) for i, x in enumerate(lm))
+      except Exception as e:  # pylint: disable=broad-except
+        okm, lm = False, f'{type(e).__name__}: {e}'
+      if not okm:
+        bad.append((v_, [i for i, x in enumerate(lm) if x == float('-inf')] if isinstance(lm, tuple) else lm))
+    p.oblige(f'ids.{name}.logits_mask', [], z3.BoolVal(not bad), kind='post', fn=f'models/{name}',
+             detail='logits_mask is -inf exactly at {pad, bos, eos, oov} and 0 elsewhere, of length full_vocab_size '
+                    f'(vocab_size 1, 7, 50; masked positions found: {bad})')
+    # the metrics are wired to the ids by NAME: every label tuple handed to a metric is built from pad / bos / eos / oov
+    wired, loose = 0, []
+    for c in ast.walk(fn):
+      if isinstance(c, ast.Call) and ast.unparse(c.func).startswith('metrics.'):
+        for k in c.keywords:
+          if k.arg in ('masked_target_values', 'oov_target_values', 'eos_target_value'):
+            wired += 1
+            names = [x for x in ast.walk(k.value) if isinstance(x, (ast.Name, ast.Constant))]
+            if not names or any(isinstance(x, ast.Constant) or x.id not in ('pad', 'bos', 'eos', 'oov') for x in names):
+              loose.append(ast.unparse(k))
+            if k.arg == 'oov_target_values' and ast.unparse(k.value) != '(oov,)':
+              loose.append(ast.unparse(k))
+            if k.arg == 'eos_target_value' and ast.unparse(k.value) != 'eos':
+              loose.append(ast.unparse(k))
+            if k.arg == 'masked_target_values' and 'pad' not in [x.id for x in names if isinstance(x, ast.Name)]:
+              loose.append(ast.unparse(k))
+    p.oblige(f'ids.{name}.metrics', [], z3.BoolVal(wired >= 5 and not loose), kind='post', fn=f'models/{name}',
+             detail=f'{wired} label arguments of the eval metrics are built from pad / bos / eos / oov (padding always masked, OOV rate '
+                    f'on (oov,), truncation on eos): {loose}')
     for k, w in want.items():
       p.oblige(f'ids.{name}.{k}', hyp, to_z3(got[k]) == to_z3(w), kind='post', fn=f'models/{name}',
                model_vars={'vocab_size': V},
